@@ -270,9 +270,11 @@ func checkC23(c *Ctx) *report.Result {
 				continue
 			}
 			got, want := 0, 0
+			cond := false
 			for _, a := range row.Acc {
 				if a.Kind == 'W' {
 					got++
+					cond = cond || a.Cond
 				}
 			}
 			for _, a := range doc.Mem {
@@ -280,7 +282,7 @@ func checkC23(c *Ctx) *report.Result {
 					want++
 				}
 			}
-			r.Ob("S-cpu", got == want, fmt.Sprintf("opcode %d/%02X (%s) performs only its documented memory writes", page, k, doc.Mnemonic), "", fmt.Sprintf("%d decoder writes, %d documented: an undocumented write could deliver a byte the program never wrote to SB", got, want))
+			r.Ob("S-cpu", got == want && !cond, fmt.Sprintf("opcode %d/%02X (%s) performs exactly its documented memory writes, on every path", page, k, doc.Mnemonic), "", fmt.Sprintf("%d decoder writes (conditional on data: %v), %d documented: an undocumented write could deliver a byte the program never wrote to SB, a skipped one loses a byte it did write", got, cond, want))
 		}
 	}
 	// ---- S-read
